@@ -12,7 +12,7 @@ package goat
 //@   ensures[C08.never_negative]       result.1 ==> result.0 >= 0
 // the client encodes every caller deadline as <milliseconds>m, up to 13 digits for the range the property
 // quantifies over (10^4 hours = 11 digits): those values must be read exactly too, not only the 8-digit wire grammar
-//@   ensures[C08.client_encoded_deadlines_read_exactly] DU(timeout) && len(timeout) <= 14 ==> result.1 && result.0 == timeoutNs(timeout)
+//@   ensures[C08.client_encoded_deadlines_read_exactly] DU(timeout) && len(timeout) <= 14 && lastChar(timeout) == "m" ==> result.1 && result.0 == timeoutNs(timeout)
 
 // ---------------------------------------------------------------------------------
 // small pure helpers
